@@ -95,6 +95,7 @@ func (this *Hnsw) Insert(id uuid.UUID, value math.Vector, metadata Metadata, ver
 			return err
 		}
 	}
+	verifYield("insert.afterStore")
 
 	entrypoint := (*hnswVertex)(atomic.LoadPointer(&this.entrypoint))
 	minDistance := this.space.Distance(vertex.vector, entrypoint.vector)
@@ -131,6 +132,7 @@ func (this *Hnsw) Insert(id uuid.UUID, value math.Vector, metadata Metadata, ver
 		}
 	}
 
+	verifYield("insert.beforeEntrypointCAS")
 	entrypoint = (*hnswVertex)(atomic.LoadPointer(&this.entrypoint))
 	if entrypoint != nil && vertex.level > entrypoint.level {
 		atomic.CompareAndSwapPointer(&this.entrypoint, this.entrypoint, unsafe.Pointer(vertex))
@@ -167,6 +169,7 @@ func (this *Hnsw) Remove(id uuid.UUID) error {
 		return err
 	}
 
+	verifYield("remove.afterUnstore")
 	currEntrypoint := atomic.LoadPointer(&this.entrypoint)
 	if (*hnswVertex)(currEntrypoint) == vertex {
 		minDistance := math.MaxFloat
@@ -188,6 +191,7 @@ func (this *Hnsw) Remove(id uuid.UUID) error {
 		}
 		atomic.CompareAndSwapPointer(&this.entrypoint, currEntrypoint, unsafe.Pointer(closestNeighbor))
 	}
+	verifYield("remove.afterHandover")
 
 	for l := vertex.level; l >= 0; l-- {
 		mMax := this.config.mMax
